@@ -198,7 +198,16 @@ impl Lzma2Decoder {
         let mut taken = input.take(packed_size);
         let mut rangecoder = rangecoder::RangeDecoder::new(&mut taken)
             .map_err(|e| error::Error::LzmaError(format!("LZMA input too short: {}", e)))?;
-        self.lzma_state.process(accum, &mut rangecoder)
+        self.lzma_state.process(accum, &mut rangecoder)?;
+        // The chunk must end exactly at its declared compressed size with a
+        // finished range coder, otherwise the declared sizes are inconsistent
+        // with the payload.
+        if !rangecoder.is_finished_ok()? {
+            return Err(error::Error::LzmaError(String::from(
+                "LZMA2 chunk does not end at its declared compressed size",
+            )));
+        }
+        Ok(())
     }
 
     fn parse_uncompressed<R, W>(
